@@ -24,7 +24,7 @@ from ..term import Resolver, pmatch, find_all, abstract, anf_of
 BASE = "inference/pdf/base.py"
 KDE = "inference/pdf/kde.py"
 UNI = "inference/pdf/unimodal.py"
-FLOORS = {"mirror-symmetric-limits": 2, "float-arithmetic": 3, "units": 3, "units-result-types": 3, "hdi-cost-form": 1, "mode-is-argmax": 2, "quadrature-weights": 3,
+FLOORS = {"kde-cdf-integrates-pdf": 7, "mirror-symmetric-limits": 2, "float-arithmetic": 3, "units": 3, "units-result-types": 3, "hdi-cost-form": 1, "mode-is-argmax": 2, "quadrature-weights": 3,
           "normaliser-consistent": 2, "cdf-ordering": 1}
 
 EXPECTED = {"__call__": "Lin(-1,0)", "cdf": "Lin(0,0)", "interval": "Tup(Lin(1,1), Lin(1,1))",
@@ -161,7 +161,13 @@ def _cdf_ordering(prog, uc, cf):
 
 
 def run(prog, tier):
+    # the KDE's cumulative function is the integral of its density (kernel sums over the same kept samples, every group of query
+    # points written) - the clause C19 shares with C12, decided there
+    from .common import borrow
+    shared = borrow(prog, tier, "C12", {"kernel-form", "every-group-stored", "region-tables"}, "kde-cdf-integrates-pdf",
+                    "intervals and probabilities are read through the estimator's own cdf, which must be the integral of its own density")
     obs = []
+    obs.extend(shared)
     S = Lin(1, 1)
     public = {"__call__": [S], "cdf": [S], "interval": [num()], "moments": [], "__attr__": ["mode"]}
     obs.extend(units_obligations(prog, KDE, "GaussianKDE",
